@@ -260,9 +260,22 @@ structure World where
   phaseEvents : List PhaseEvent := []
   remoteRefs : List (String × String) := []   -- RemotePhaseReferences collected during a pass
   applied : List (Key × Obj) := []            -- result of every apply, parallel to the apply events
+  -- GHOST state for C10 (crash points).  No model function reads these fields except `tick`;
+  -- they never influence what a pass does.  `gw` counts the write requests PKO has issued in
+  -- this pass; when request number `crashAt` is about to be issued, `snap` keeps the state as it
+  -- is at that moment: the state a crash (or a failed / lost call) at that point leaves behind.
+  gw : Nat := 0
+  crashAt : Option Nat := none
+  snap : Option (Store × (String → Option OPhase)) := none
+
+/-- GHOST: called once per write request PKO issues, right before it. -/
+def World.tick (w : World) : World :=
+  { w with gw := w.gw + 1,
+           snap := if w.crashAt = some w.gw && w.snap.isNone then some (w.store, w.phases) else w.snap }
 
 /-- Run the third-party operations scheduled before the next PKO write. -/
 def World.beforeWrite (w : World) : World :=
+  let w := w.tick
   let due := w.env.filter (·.1 = w.writes)
   { w with store := due.foldl (fun s e => s.env e.2) w.store, writes := w.writes + 1 }
 
